@@ -10,7 +10,8 @@ pub open spec fn expr_text_upto(ls: Seq<Seq<u8>>, k: int) -> Seq<char> decreases
     else if k == 1 { seq!['$', ' '] + lossy(assure_nl_bytes(ls[0])) }
     else { expr_text_upto(ls, k - 1) + seq!['>', ' '] + lossy(assure_nl_bytes(ls[k - 1])) }
 }
-pub open spec fn expr_text(ls: Seq<Seq<u8>>) -> Seq<char> { expr_text_upto(ls, ls.len() as int) }
+/// (an empty command is written as `$ ` alone)
+pub open spec fn expr_text(ls: Seq<Seq<u8>>) -> Seq<char> { if ls.len() == 0 { seq!['$', ' ', '\n'] } else { expr_text_upto(ls, ls.len() as int) } }
 pub proof fn lemma_split_nonempty(l: Seq<Seq<u8>>, b: Seq<u8>)
     requires is_split(l, b), b.len() > 0,
     ensures l.len() > 0,
